@@ -66,6 +66,25 @@ theorem as_altered_rejected (skew now : Int) (r : Req) (o : Outer) (e : Enc)
   · exact h.2 (h5 h.1)
   · exact h h6
 
+/-- one requested address that the reply does not list is enough: whichever position it has in the request, and
+    whatever the other addresses of the reply are -/
+theorem as_missing_address_rejected (skew now : Int) (r : Req) (o : Outer) (e : Enc) (a : Addr)
+    (ha : a ∈ r.addrs) (hn : a ∉ e.caddr) :
+    asVerify skew now r o (some e) ≠ .ok := by
+  apply as_altered_rejected
+  right; right; right; right; left
+  refine ⟨List.ne_nil_of_mem ha, ?_⟩
+  intro h
+  exact hn (h.2 a ha)
+
+/-- … and so is a reply that lists more or fewer addresses than were asked for -/
+theorem as_address_count_rejected (skew now : Int) (r : Req) (o : Outer) (e : Enc)
+    (hne : r.addrs ≠ []) (hl : e.caddr.length ≠ r.addrs.length) :
+    asVerify skew now r o (some e) ≠ .ok := by
+  apply as_altered_rejected
+  right; right; right; right; left
+  exact ⟨hne, fun h => hl h.1⟩
+
 /-- the KDC time bound is decided exactly at the limit -/
 theorem skew_boundaries (skew now : Int) :
     Within skew now (now - skew) ∧ Within skew now (now + skew) ∧
